@@ -173,6 +173,25 @@ def check_node(rep, node, tier, idx):
                         outcome = "composition"
                 if outcome == "ok" and d[0] == "ok":
                     prev_enc, prev_exp = enc, exp
+            if outcome == "ok" and d[0] == "ok" and isinstance(d[1], (list, dict)):
+                # the decoded value belongs to the caller: changing it in place does not change what the same bytes decode to next time
+                def scramble(x):
+                    if isinstance(x, list):
+                        for i_, e_ in enumerate(x):
+                            scramble(e_)
+                            x[i_] = None
+                        x.append("junk")
+                    elif isinstance(x, dict):
+                        for k_ in list(x):
+                            scramble(x[k_])
+                            x[k_] = None
+                scramble(d[1])
+                d4 = _try(node.decode, enc)
+                calls += 1
+                if d4[0] != "ok" or not node.same(d4[1], exp):
+                    rep.violation(f"decoded-value-shared/{node.cls}", f"{node.label}: after the value decoded from {enc[:24].hex()} was modified in place, decoding the same bytes again gives {d4!r:.100}, expected {exp!r:.100}",
+                                  {"type_index": idx, "tier": tier, "value_index": vi, "clause": "aliasing"})
+                    outcome = "decoded-value-shared"
             if node.kind == "array" and outcome == "ok" and isinstance(v, (list, tuple)) and len(v) >= 1 and isinstance(exp, list) and len(exp) == len(v) \
                     and node.children and node.children[0].desc[0] != "bits" and not node.children[0].consumes_all and node._enc is None and node._dec is None:
                 # the element count given explicitly to encode and decode (whatever kind of length the array type has): still a round trip,
